@@ -4,63 +4,71 @@ import Fdo.Gen.Rv
 C20 — rendezvous instructions are interpreted totally and per role as specified.
 
 STATE OF THIS FILE: the model `Fdo.Rv.parseDirective` mirrors `protocol/rv.go` and
-`cbor/array.go` AS THEY ARE.  On the current code four statements of the property are false;
-for each the full statement is kept in a comment, the `…_partial` version is proved under an
-explicit decidable guard, and a witness theorem exhibits a concrete input on which the full
-statement fails (each witness is replayed on the Go code by the harness):
+`cbor/array.go` WITH the four repairs fix-1 … fix-4 applied (see the header of `Fdo/Rv.lean`);
+every statement of the property is proved at full strength, for all instruction lists of any
+length over any variable numbers and any byte strings as values, for both views.
+`Fdo.RvSpec.specDirective` is the independent table-driven reference interpreter.
 
-  1. `RVExtRV` with an empty value panics in `cbor.ArrayShift`              (`extrv_empty_panics`)
-  2. `RVDns`/`RVIPAddress` values that fail to decode are used anyway, or
-     wipe an earlier address                       (`dns_trailing_bytes_used`, `ip_partial_array_used`,
-                                                     `ip_failed_decode_wipes_address`)
-  3. negative or overflowing `RVDelaysec`          (`delay_negative`, `delay_overflows`)
-  4. a second `RVProtocol` keeps the first one's default port             (`second_protocol_keeps_first_default_port`)
-
-`Fdo.Rv.Repaired.parseDirective` is the interpreter after the proposed patches; it satisfies
-all statements at full strength (`RvProofs.repaired_eq_spec`), and `clean` is exactly the guard
-under which the current code coincides with it (`RvProofs.current_eq_repaired`).
+(The previous commit holds the model of the unrepaired code with the `…_partial` theorems and
+one witness theorem per defect: empty `RVExtRV` panics; `RVDns`/`RVIPAddress` values that fail
+to decode are used or wipe an earlier address; negative/overflowing `RVDelaysec`; a second
+`RVProtocol` keeps the first one's default port.)
 -/
 namespace Fdo.Props.C20
 open Fdo Fdo.Rv Fdo.RvSpec Fdo.RvProofs
 
-/-- The guard of `parse_never_panics_partial` and `other_role_contributes_nothing_partial`. -/
-def NoEmptyExt (is : List RvInstr) : Prop := ∀ i ∈ is, i.var = rvExtRV → i.value ≠ []
-
-instance (is : List RvInstr) : Decidable (NoEmptyExt is) := by unfold NoEmptyExt; infer_instance
-
 /-! ### totality -/
 
-/- FULL STATEMENT (false on the current code, see `extrv_empty_panics`):
+/-- Interpreting a directive never panics: the loop has no panic site left (`cbor.ArrayShift`
+is total), so no outcome is a panic. -/
 theorem parse_never_panics (dev : Bool) (is : List RvInstr) (s : String) :
-    parseDirective dev is ≠ .panic s -/
+    parseDirective dev is ≠ .panic s := by
+  rw [parseDirective_eq_spec]
+  unfold specDirective
+  split <;> simp
 
-/-- Interpreting a directive never panics, provided no `RVExtRV` instruction has an empty value. -/
-theorem parse_never_panics_partial (dev : Bool) (is : List RvInstr) (h : NoEmptyExt is) (s : String) :
-    parseDirective dev is ≠ .panic s :=
-  dirLoop_no_panic dev _ is h s
+/-- Hence `ParseDeviceRvInfo`/`ParseOwnerRvInfo` return one directive per input directive. -/
+theorem parseRvInfo_total (dev : Bool) (dirs : List (List RvInstr)) :
+    ∃ ds, parseRvInfo dev dirs = .ok ds ∧ ds.length = dirs.length := by
+  induction dirs with
+  | nil => exact ⟨[], rfl, rfl⟩
+  | cons is rest ih =>
+    obtain ⟨ds, h, hl⟩ := ih
+    unfold parseRvInfo
+    cases hp : parseDirective dev is with
+    | panic s => exact absurd hp (parse_never_panics dev is s)
+    | dropped => exact ⟨Directive.zero :: ds, by simp [h, Except.map], by simp [hl]⟩
+    | ok d => exact ⟨d :: ds, by simp [h, Except.map], by simp [hl]⟩
 
-/-- Witness: an `RVExtRV` instruction with an empty value panics (both views). -/
-theorem extrv_empty_panics :
-    parseDirective true [⟨15, []⟩] = .panic "cbor.ArrayShift:empty" ∧
-    parseDirective false [⟨15, []⟩] = .panic "cbor.ArrayShift:empty" := by decide
-
-/-- `ParseDeviceRvInfo`/`ParseOwnerRvInfo` as a whole then abort, whatever else is in the list. -/
-theorem extrv_empty_aborts_whole_call :
-    parseRvInfo true [[⟨5, [0x61, 0x61]⟩], [⟨15, []⟩]] = .error "cbor.ArrayShift:empty" := by rfl
+/-- An empty `RVExtRV` value — the former panic — is now ignored like any malformed value. -/
+theorem extrv_empty_ignored (dev : Bool) (l1 l2 : List RvInstr) :
+    parseDirective dev (l1 ++ ⟨15, []⟩ :: l2) = parseDirective dev (l1 ++ l2) := by
+  rw [parseDirective_eq_spec, parseDirective_eq_spec]
+  exact spec_malformed dev l1 l2 _ (by decide)
 
 /-! ### role filter -/
 
-/- FULL STATEMENT (false on the current code: an empty `RVExtRV` before the marker panics first):
+/-- A directive marked for the other role (`RVOwnerOnly` in the device view, `RVDevOnly` in the
+owner view) contributes nothing: no addresses and no other field, wherever the marker stands. -/
 theorem other_role_contributes_nothing (dev : Bool) (is : List RvInstr)
-    (hm : ∃ i ∈ is, i.var = (roleRow dev).otherOnlyVar) : parseDirective dev is = .dropped -/
+    (hm : ∃ i ∈ is, i.var = (roleRow dev).otherOnlyVar) : parseDirective dev is = .dropped := by
+  rw [parseDirective_eq_spec]
+  unfold specDirective
+  have : is.any (fun i => decide (i.var = (roleRow dev).otherOnlyVar)) = true := by
+    obtain ⟨i, hi, hv⟩ := hm
+    exact List.any_eq_true.mpr ⟨i, hi, by simp [hv]⟩
+  simp [this]
 
-/-- A directive marked for the other role contributes nothing (no addresses, no other field). -/
-theorem other_role_contributes_nothing_partial (dev : Bool) (is : List RvInstr) (h : NoEmptyExt is)
-    (hm : ∃ i ∈ is, i.var = (roleRow dev).otherOnlyVar) : parseDirective dev is = .dropped :=
-  dirLoop_marker dev _ is h hm
-
-theorem other_role_marker_after_empty_extrv_panics :
-    parseDirective true [⟨15, []⟩, ⟨1, []⟩] = .panic "cbor.ArrayShift:empty" := by decide
+/-- … and only such a marker makes a directive contribute nothing as a whole. -/
+theorem dropped_only_by_marker (dev : Bool) (is : List RvInstr) (h : parseDirective dev is = .dropped) :
+    ∃ i ∈ is, i.var = (roleRow dev).otherOnlyVar := by
+  rw [parseDirective_eq_spec] at h
+  unfold specDirective at h
+  split at h
+  · rename_i ha
+    obtain ⟨i, hi, hv⟩ := List.any_eq_true.mp ha
+    exact ⟨i, hi, by simpa using hv⟩
+  · cases h
 
 /-- In the API a dropped directive is the zero `RvDirective`: no URL at all. -/
 theorem dropped_is_zero (dev : Bool) (is : List RvInstr) (h : parseDirective dev is = .dropped) :
@@ -69,106 +77,62 @@ theorem dropped_is_zero (dev : Bool) (is : List RvInstr) (h : parseDirective dev
 
 /-! ### model = specification tables -/
 
-/- FULL STATEMENT (false on the current code, see the witnesses below):
-theorem parse_eq_spec (dev : Bool) (is : List RvInstr) : parseDirective dev is = specDirective dev is -/
+/-- For every instruction list the interpreter computes exactly what the table-driven
+reference interpreter prescribes: dropped or not, URLs (scheme, DNS and/or IP host, port),
+bypass, delay, medium, wifi, external RV and certificate hashes. -/
+theorem parse_eq_spec (dev : Bool) (is : List RvInstr) :
+    parseDirective dev is = specDirective dev is := parseDirective_eq_spec dev is
 
-/-- Outside the four defect classes (`clean`) the interpreter computes exactly what the
-table-driven reference interpreter prescribes: URLs (scheme, DNS and/or IP host, port), bypass,
-delay, medium, wifi, external RV and certificate hashes. -/
-theorem parse_eq_spec_partial (dev : Bool) (is : List RvInstr) (h : clean is = true) :
-    parseDirective dev is = specDirective dev is := by
-  rw [current_eq_repaired dev is h, repaired_eq_spec]
-
-/-- The repaired interpreter equals the reference interpreter on every list. -/
-theorem repaired_parse_eq_spec (dev : Bool) (is : List RvInstr) :
-    Repaired.parseDirective dev is = specDirective dev is := repaired_eq_spec dev is
-
-/-- Witness (defect 2): `RVDns = "a"` followed by a trailing byte is used although malformed. -/
-theorem dns_trailing_bytes_used :
-    parseURLs true [⟨5, [0x61, 0x61, 0x00]⟩] = [⟨.tls, .dns [0x61], none⟩] ∧
-    specURLs true [⟨5, [0x61, 0x61, 0x00]⟩] = [] := by decide
-
-/-- Witness (defect 2): an `RVIPAddress` array whose third element is not an integer leaves
-the two-byte prefix behind, and it is used as an address. -/
-theorem ip_partial_array_used :
-    parseURLs true [⟨2, [0x84, 0x01, 0x02, 0xf5, 0x04]⟩] = [⟨.tls, .ip [1, 2], none⟩] ∧
-    specURLs true [⟨2, [0x84, 0x01, 0x02, 0xf5, 0x04]⟩] = [] := by decide
-
-/-- Witness (defect 2): a malformed second `RVIPAddress` wipes the valid first one. -/
-theorem ip_failed_decode_wipes_address :
-    parseURLs true [⟨2, [0x44, 1, 2, 3, 4]⟩, ⟨2, [0x05]⟩] = [] ∧
-    specURLs true [⟨2, [0x44, 1, 2, 3, 4]⟩, ⟨2, [0x05]⟩] = [⟨.tls, .ip [1, 2, 3, 4], none⟩] := by decide
-
-/-- Witness (defect 3): `RVDelaysec = -1` becomes a negative delay. -/
-theorem delay_negative :
-    parseDirective true [⟨13, [0x20]⟩] = .ok { Directive.zero with delay := -1000000000 } := by decide
-
-/-- Witness (defect 3): `RVDelaysec = 9223372037` seconds wraps around in int64 nanoseconds. -/
-theorem delay_overflows :
-    parseDirective true [⟨13, [0x1b, 0, 0, 0, 2, 0x25, 0xc1, 0x7d, 0x05]⟩] =
-      .ok { Directive.zero with delay := -9223372036709551616 } := by decide
-
-/-- Witness (defect 4): https after http keeps port 80. -/
-theorem second_protocol_keeps_first_default_port :
-    parseURLs true [⟨12, [0x01]⟩, ⟨12, [0x02]⟩, ⟨5, [0x61, 0x61]⟩] = [⟨.https, .dns [0x61], some 80⟩] ∧
-    specURLs true [⟨12, [0x01]⟩, ⟨12, [0x02]⟩, ⟨5, [0x61, 0x61]⟩] = [⟨.https, .dns [0x61], some 443⟩] := by decide
+/-- `parseURLs` alone likewise. -/
+theorem parseURLs_eq_spec (dev : Bool) (is : List RvInstr) :
+    parseURLs dev is = specURLs dev is := RvProofs.parseURLs_eq_spec dev is
 
 /-! ### order -/
 
-/- FULL STATEMENT (false on the current code, see `order_matters_with_empty_extrv`):
+/-- The result does not depend on the order of instructions with pairwise distinct variables. -/
 theorem order_independent (dev : Bool) (l l' : List RvInstr) (hd : (l.map (·.var)).Nodup) (hp : l.Perm l') :
-    parseDirective dev l = parseDirective dev l' -/
-
-/-- The result does not depend on the order of instructions with pairwise distinct variables
-(outside the defect classes; the harness finds order dependence on the current code only
-through the `ArrayShift` panic). -/
-theorem order_independent_partial (dev : Bool) (l l' : List RvInstr) (hc : clean l = true)
-    (hd : (l.map (·.var)).Nodup) (hp : l.Perm l') :
     parseDirective dev l = parseDirective dev l' := by
-  rw [parse_eq_spec_partial dev l hc, parse_eq_spec_partial dev l' (by rw [← clean_perm hp]; exact hc)]
+  rw [parseDirective_eq_spec, parseDirective_eq_spec]
   exact spec_perm dev hp hd
-
-theorem order_matters_with_empty_extrv :
-    parseDirective true [⟨1, []⟩, ⟨15, []⟩] = .dropped ∧
-    parseDirective true [⟨15, []⟩, ⟨1, []⟩] = .panic "cbor.ArrayShift:empty" := by decide
 
 /-! ### ports per role -/
 
-/- FULL STATEMENT (false on the current code, see `second_protocol_keeps_first_default_port`):
-theorem role_port (dev : Bool) (is : List RvInstr) (u : Url) (hu : u ∈ parseURLs dev is) :
-    u.port = orElse (lastValid (onVar (if dev then 3 else 4) readU16) is) (defaultPort u.scheme) -/
-
 /-- Every URL carries the port of the role's own port variable (device: `RVDevPort`, owner:
-`RVOwnerPort`; last valid uint16 value), else the default port of its scheme. -/
-theorem role_port_partial (dev : Bool) (is : List RvInstr) (hc : clean is = true) (u : Url)
-    (hu : u ∈ parseURLs dev is) :
+`RVOwnerPort`; last valid uint16 value), else the default port of its scheme (http 80,
+https 443, coap and coap+tcp 5683, tcp and tls none). -/
+theorem role_port (dev : Bool) (is : List RvInstr) (u : Url) (hu : u ∈ parseURLs dev is) :
     u.port = orElse (lastValid (onVar (if dev then 3 else 4) readU16) is) (defaultPort u.scheme) := by
-  rw [parseURLs_clean dev is hc, parseURLs_eq_spec] at hu
+  rw [RvProofs.parseURLs_eq_spec] at hu
   exact spec_url_port dev is u hu
 
-/-- The other role's port variable is not looked at at all (no guard needed). -/
+/-- The other role's port variable is not looked at at all. -/
 theorem role_port_other_ignored (dev : Bool) (l1 l2 : List RvInstr) (i : RvInstr)
     (h : i.var = if dev then 4 else 3) :
-    parseDirective dev (l1 ++ i :: l2) = parseDirective dev (l1 ++ l2) :=
-  parse_other_port dev l1 l2 i (by cases dev <;> simpa [roleRow] using h)
+    parseDirective dev (l1 ++ i :: l2) = parseDirective dev (l1 ++ l2) := by
+  rw [parseDirective_eq_spec, parseDirective_eq_spec]
+  exact spec_other_port dev l1 l2 i (by cases dev <;> simpa [roleRow] using h)
 
 /-! ### malformed values -/
 
-/- FULL STATEMENT (false on the current code, see `dns_trailing_bytes_used`, `ip_partial_array_used`):
+/-- An instruction whose value does not decode (`cbor.Unmarshal` returns an error, be it for
+the wrong type, range, truncation, trailing bytes or an over-limit length) as the type of its
+variable is ignored: the result is that of the list without it. -/
 theorem malformed_ignored (dev : Bool) (l1 l2 : List RvInstr) (i : RvInstr) (hm : malformed i = true) :
-    parseDirective dev (l1 ++ i :: l2) = parseDirective dev (l1 ++ l2) -/
-
-/-- An instruction whose value does not decode as the type of its variable is ignored: the
-result is that of the list without it (outside the defect classes). -/
-theorem malformed_ignored_partial (dev : Bool) (l1 l2 : List RvInstr) (i : RvInstr)
-    (hc : clean (l1 ++ i :: l2) = true) (hm : malformed i = true) :
     parseDirective dev (l1 ++ i :: l2) = parseDirective dev (l1 ++ l2) := by
-  rw [parse_eq_spec_partial dev _ hc, parse_eq_spec_partial dev _ (clean_remove l1 l2 i hc)]
+  rw [parseDirective_eq_spec, parseDirective_eq_spec]
   exact spec_malformed dev l1 l2 i hm
 
-theorem malformed_dns_not_ignored :
-    malformed ⟨5, [0x61, 0x61, 0x00]⟩ = true ∧
-    parseDirective true ([] ++ ⟨5, [0x61, 0x61, 0x00]⟩ :: []) ≠ parseDirective true ([] ++ []) := by decide
+/-- The former witnesses now behave: trailing bytes after a DNS name, a partially decodable
+address array, a negative or huge delay are malformed and leave no trace; a malformed second
+address does not wipe the first; https after http gets 443. -/
+theorem former_defects_repaired :
+    parseURLs true [⟨5, [0x61, 0x61, 0x00]⟩] = [] ∧
+    parseURLs true [⟨2, [0x84, 0x01, 0x02, 0xf5, 0x04]⟩] = [] ∧
+    parseURLs true [⟨2, [0x44, 1, 2, 3, 4]⟩, ⟨2, [0x05]⟩] = [⟨.tls, .ip [1, 2, 3, 4], none⟩] ∧
+    parseDirective true [⟨13, [0x20]⟩] = .ok Directive.zero ∧
+    parseDirective true [⟨13, [0x1b, 0, 0, 0, 2, 0x25, 0xc1, 0x7d, 0x05]⟩] = .ok Directive.zero ∧
+    parseDirective true [⟨15, []⟩] = .ok Directive.zero ∧
+    parseURLs true [⟨12, [0x01]⟩, ⟨12, [0x02]⟩, ⟨5, [0x61, 0x61]⟩] = [⟨.https, .dns [0x61], some 443⟩] := by decide
 
 /-! ### regenerated constants and tables -/
 
@@ -211,27 +175,51 @@ theorem gen_role_columns_eq :
 
 /-! ### non-vacuity -/
 
-/-- A five-instruction directive (https, DNS, IPv4, device port, delay) satisfies `clean`,
-has distinct variables and yields two URLs with the device port. -/
+/-- A five-instruction directive (https, DNS, IPv4, device port, delay) has distinct variables
+and yields two URLs with the device port (hypotheses of `order_independent`, `role_port`). -/
 example :
     let is : List RvInstr := [⟨12, [0x02]⟩, ⟨5, [0x63, 0x61, 0x2e, 0x62]⟩,
       ⟨2, [0x44, 192, 0, 2, 1]⟩, ⟨3, [0x19, 0x1f, 0x90]⟩, ⟨13, [0x0a]⟩]
-    clean is = true ∧ (is.map (·.var)).Nodup ∧ NoEmptyExt is ∧
+    (is.map (·.var)).Nodup ∧
     parseDirective true is = .ok { Directive.zero with
       urls := [⟨.https, .dns [0x61, 0x2e, 0x62], some 8080⟩, ⟨.https, .ip [192, 0, 2, 1], some 8080⟩]
       delay := 10000000000 } := by decide
 
-/-- The owner view of the same list ignores `RVDevPort` and falls back to 443. -/
+/-- The owner view of the same addresses ignores `RVDevPort` and falls back to 443. -/
 example :
     parseURLs false [⟨12, [0x02]⟩, ⟨2, [0x44, 192, 0, 2, 1]⟩, ⟨3, [0x19, 0x1f, 0x90]⟩] =
       [⟨.https, .ip [192, 0, 2, 1], some 443⟩] := by decide
 
-/-- A malformed instruction inside a clean list (hypotheses of `malformed_ignored_partial`). -/
-example : clean ([⟨12, [0x01]⟩] ++ ⟨3, [0x61, 0x61]⟩ :: [⟨5, [0x61, 0x61]⟩]) = true ∧
-    malformed ⟨3, [0x61, 0x61]⟩ = true := by decide
+/-- Malformed values exist for every typed variable (hypothesis of `malformed_ignored`):
+trailing bytes, wrong type, out of range, truncated, empty. -/
+example : malformed ⟨5, [0x61, 0x61, 0x00]⟩ = true ∧ malformed ⟨3, [0x61, 0x61]⟩ = true ∧
+    malformed ⟨12, [0x19, 0x01, 0x00]⟩ = true ∧ malformed ⟨2, [0x44, 1, 2]⟩ = true ∧ malformed ⟨15, []⟩ = true ∧
+    malformed ⟨13, [0x20]⟩ = true ∧ malformed ⟨6, [0x81, 0x2f]⟩ = true ∧ malformed ⟨11, [0xf6]⟩ = true ∧
+    malformed ⟨5, [0x61, 0x61]⟩ = false := by decide
 
-/-- A marked directive without empty `RVExtRV` (hypotheses of `other_role_contributes_nothing_partial`). -/
-example : NoEmptyExt [⟨5, [0x61, 0x61]⟩, ⟨0, []⟩] ∧ ∃ i ∈ [(⟨5, [0x61, 0x61]⟩ : RvInstr), ⟨0, []⟩], i.var = (roleRow false).otherOnlyVar :=
-  ⟨by decide, ⟨⟨0, []⟩, by simp, by decide⟩⟩
+/-- A marked directive (hypothesis of `other_role_contributes_nothing`), and the other fields
+of a directive are reachable: bypass, medium, wifi, certificate hashes. -/
+example :
+    (∃ i ∈ [(⟨5, [0x61, 0x61]⟩ : RvInstr), ⟨0, []⟩], i.var = (roleRow false).otherOnlyVar) ∧
+    parseDirective true [⟨14, []⟩, ⟨11, [0x0d]⟩, ⟨9, [0x61, 0x73]⟩, ⟨10, [0x61, 0x70]⟩,
+      ⟨6, [0x82, 0x2f, 0x41, 0xaa]⟩, ⟨7, [0x82, 0x38, 0x2a, 0x41, 0xbb]⟩] =
+      .ok { Directive.zero with
+        bypass := true
+        wlan := some 3
+        ssid := [0x73]
+        pass := [0x70]
+        svCert := some (-16, [0xaa])
+        clCert := some (-43, [0xbb]) } :=
+  ⟨⟨⟨0, []⟩, by simp, by decide⟩, by decide⟩
+
+/-- … and external RV: `["m", 1]` gives mechanism "m" and the argument array `[1]`. -/
+example : parseDirective true [⟨15, [0x82, 0x61, 0x6d, 0x01]⟩] =
+    .ok { Directive.zero with extMech := [0x6d], extArgs := [0x81, 0x01] } := by
+  have h : arrayShift [0x82, 0x61, 0x6d, 0x01] = .ok [0x61, 0x6d] [0x81, 0x01] := by
+    simp [arrayShift, Cbor.decHead, Cbor.decode1, Cbor.decode, shiftLen, Cbor.maxLen, Cbor.encHead]
+  have h2 : unmarshalStr [0x61, 0x6d] = ⟨some [0x6d], true⟩ := by decide
+  have h3 : parseURLs true [⟨15, [0x82, 0x61, 0x6d, 0x01]⟩] = [] := by decide
+  simp [parseDirective, dirLoop, dirStep, h, h2, h3, applyExt, Directive.zero, rvDevOnly, rvOwnerOnly, rvBypass, rvMedium,
+    rvWifiSsid, rvWifiPw, rvExtRV]
 
 end Fdo.Props.C20
